@@ -39,6 +39,7 @@ def run(tier):
                        "statistics passed together with an address event / malformed message that the hints drop are not "
                        "generated (the statement does not say whether they count as supplied)"]
     hs = histories(chk, tier)
+    hs = [histgen.add_external_block_ops(rng_for(chk, 300 + k), h) if k % 3 == 0 else h for k, h in enumerate(hs)]
     m = run_histories(chk, hs, {"C01"}, label="c01")
     # the same code with a 12-byte encoder buffer and a 5-byte decoder window: every item of every block and of the
     # reader's input straddles a buffer boundary at some alignment
